@@ -509,8 +509,9 @@ def parse_authority(authority: bytes) -> list[Node]:
             )
         )
         offset += len(username)
-    if password:
+    if b":" in userinfo:
         offset += 1  # for the :
+    if password:
         out.append(
             Node(
                 "network.url.password",
@@ -522,8 +523,9 @@ def parse_authority(authority: bytes) -> list[Node]:
         )
     if not host:
         return out
-    if userinfo:
+    if b"@" in authority:
         offset += 1  # for the @
+    host_length = len(host)  # spans index the text, which may still be percent-escaped
     host = unquote_to_bytes(host)
     if host.startswith(b"["):
         if not host.endswith(b"]"):
@@ -532,10 +534,12 @@ def parse_authority(authority: bytes) -> list[Node]:
             out.append(parse_ipv6(host[1:-1]).shift(offset + 1))
     else:
         try:
-            out.append(parse_ip(host).shift(offset))
+            ip_node = parse_ip(host).shift(offset)
+            ip_node.end = offset + host_length
+            out.append(ip_node)
         except ValueError:
             if is_domain(host):
-                out.append(Node("network.domain", host, "", offset, offset + len(host)))
+                out.append(Node("network.domain", host, "", offset, offset + host_length))
     return out
 
 
